@@ -3,6 +3,7 @@
   changes the input buffer, membership in the enumerations the table checks range over.
 -/
 import UnytModel.Equivalencies
+import UnytModel.Ref.C09
 
 namespace Unyt.Equiv
 open Unyt
@@ -75,6 +76,33 @@ theorem Trace.run_pure (alias : Bool) (t : Trace) (r : Formula × Option Formula
       cases hv : resolveArg alias s a with
       | none => simp [hv] at h
       | some v => simp [hv] at h; subst h; exact hb
+
+/-- the final step of the in-place forms (`convert_to_units`: `values *= factor`, then subtract
+    the offset) gives the same reading and label as the final step of the copying forms
+    (`in_units`) — any carrier, no arithmetic laws needed -/
+theorem convertToUnits_eq_inUnits {K : Type} [Add K] [Sub K] [Mul K] [Div K] [OfNat K 0] [OfNat K 1]
+    [BEq K] (pre : Prefixes K) (t : Lut K) (u target : UnitV K) (x : K) :
+    convertToUnits pre t (x, u) target = inUnits pre t u x target := by
+  simp only [convertToUnits, inUnits]
+  cases getConversionFactor pre t u target with
+  | error e => rfl
+  | ok f =>
+    obtain ⟨r, o⟩ := f
+    cases o with
+    | none => rfl
+    | some v => simp only [applyFactor]
+
+/-- which members a list of dimensions has does not depend on its order -/
+theorem contains_of_sameDims {a b : List Dim} (h : Ref.C09.sameDims a b = true) (d : Dim) :
+    a.contains d = b.contains d := by
+  unfold Ref.C09.sameDims at h
+  simp only [Bool.and_eq_true, List.all_eq_true] at h
+  obtain ⟨⟨hab, hba⟩, _⟩ := h
+  by_cases hd : d ∈ a
+  · have : d ∈ b := by simpa using hab d hd
+    simp [hd, this]
+  · have : d ∉ b := fun hb => hd (by simpa using hba d hb)
+    simp [hd, this]
 
 theorem mem_orderedPairs {ds : List Dim} {a b : Dim} (ha : a ∈ ds) (hb : b ∈ ds) (hab : a ≠ b) :
     (a, b) ∈ orderedPairs ds := by
